@@ -27,6 +27,7 @@ from ..hilbertspace.operators import ReducedDensityMatrix, DensityMatrix
 from .dmevolution import ReducedDensityMatrixEvolution
 from ...core.matrixdata import MatrixData
 from ...core.managers import Manager
+from ...core.managers import energy_units
 from ...spectroscopy.labsetup import LabSetup
 
 import quantarhei as qr
@@ -257,6 +258,13 @@ class ReducedDensityMatrixPropagator(MatrixData, Saveable):
             ...
         Exception: First argument has be of the ReducedDensityMatrix type
         """
+        
+        if Manager().get_current_units("energy") != "int":
+            # equations of motion are integrated in internal units, whatever
+            # units are current for the caller
+            with energy_units("int"):
+                return self.propagate(rhoi, method=method, mdata=mdata,
+                                      Nref=Nref)
         
         if Nref > 1:
             # refinement requested through the argument holds for this call
